@@ -46,9 +46,47 @@ def seeded():
             c += 1
         rows.append("| %s | %s | %s | %s |" % (s, esc((m.get("breaks") or "")[:260]), esc((m.get("needs_to_manifest") or "")[:200]), esc(res[:330])))
     return "\n".join(rows) + "\n\n%d seeded changes confirmed; %d reported as VIOLATION by the check named in the row (see the rows for the ones first missed and what was strengthened).\n" % (n, c)
+def perprop():
+    out = []
+    od = os.path.join(ROOT, "lean", "obligations")
+    for fn in sorted(os.listdir(od)):
+        if not fn.endswith(".json"):
+            continue
+        pid = fn[:-5]
+        ob = json.load(open(os.path.join(od, fn)))
+        mt = {}
+        mp = os.path.join(ROOT, "lib", "manifest", fn)
+        if os.path.exists(mp):
+            mt = json.load(open(mp))
+        def loc(paths):
+            n = 0
+            for s_ in paths:
+                sp = os.path.join(ROOT, "lean", s_)
+                files = []
+                if os.path.isdir(sp):
+                    for d_, _, fs in os.walk(sp):
+                        files += [os.path.join(d_, f) for f in fs if f.endswith(".lean")]
+                elif os.path.exists(sp):
+                    files = [sp]
+                for f in files:
+                    n += sum(1 for _ in open(f))
+            return n
+        out.append("### %s — as built\n" % pid)
+        out.append("*Claim.* %s\n" % mt.get("text", "(no manifest text yet)"))
+        ths = [t.split(".")[-1] for t in ob.get("theorems", [])]
+        out.append("*Theorems re-checked on every run (%d, `%s`; Lean sources audited: %d lines):* %s\n" % (len(ths), ob.get("module"), loc(ob.get("sources", [])), ", ".join("`%s`" % t for t in ths)))
+        if ob.get("gen"):
+            out.append("*Regenerated from /repo on every run:* %s\n" % ", ".join("`WR/Gen/%s`" % g for g in ob["gen"]))
+        out.append("*Correspondence / judge run.* %s\n" % ob.get("correspondence", ""))
+        if ob.get("partial"):
+            out.append("*Partial / not proved.* %s\n" % ob["partial"])
+        if ob.get("assumptions"):
+            out.append("*Assumptions.* " + " · ".join(ob["assumptions"]) + "\n")
+        out.append("*Trusted base.* " + " · ".join(ob.get("trusted_base", [])) + "\n")
+    return "\n".join(out) + "\n"
 p = os.path.join(ROOT, "DESIGN.md")
 s = open(p).read()
-for name, fn in (("FIXED", fixed), ("KNOWN", known), ("SEEDED", seeded)):
+for name, fn in (("FIXED", fixed), ("KNOWN", known), ("SEEDED", seeded), ("PERPROP", perprop)):
     b, e = "<!-- %s:BEGIN -->" % name, "<!-- %s:END -->" % name
     if b in s and e in s:
         s = s[:s.index(b) + len(b)] + "\n" + fn() + s[s.index(e):]
